@@ -198,14 +198,6 @@ Proof.
   cbv zeta. assert ((len q + 1 - 1) * 8 / 2 =? curve = true) as -> by lia. reflexivity.
 Qed.
 
-Lemma match4 {A} (a : Z) (x y : A) :
-  (match a with 4 => x | _ => y end) = if a =? 4 then x else y.
-Proof.
-  destruct a as [|p|p]; try reflexivity.
-  destruct p as [p|p|]; try reflexivity. destruct p as [p|p|]; try reflexivity.
-  destruct p; reflexivity.
-Qed.
-
 Lemma der_wrapped_inv p : der_wrapped p = true -> exists l t, p = 4 :: l :: 4 :: t /\ l = len p - 2.
 Proof.
   unfold der_wrapped. destruct p as [|a [|l [|c t]]].
